@@ -59,11 +59,22 @@ pub fn table() -> Value {
         Ok((418, hs, _)) if hs.iter().any(|(n, v)| n == "x-backend" && v == "1") => {}
         other => return json!({"violates": true, "input": "NoSuchKey with status override 418 and header x-backend: 1", "expected": "status 418, header kept", "observed": format!("{other:?}"), "replay_args": ["error-table"]}),
     }
+    // a backend header with SEVERAL values (two authentication challenges): every value is kept, in order
+    let mut e = s3s::S3Error::new(s3s::S3ErrorCode::AccessDenied);
+    let mut hm = hyper::HeaderMap::new();
+    hm.append("www-authenticate", "Basic realm=\"s3\"".parse().unwrap());
+    hm.append("www-authenticate", "Bearer realm=\"s3\"".parse().unwrap());
+    hm.insert("x-backend", "1".parse().unwrap());
+    e.set_headers(hm);
+    match render(e) {
+        Ok((403, hs, _)) if hs.iter().filter(|(n, _)| n == "www-authenticate").map(|(_, v)| v.as_str()).collect::<Vec<_>>() == ["Basic realm=\"s3\"", "Bearer realm=\"s3\""] && hs.iter().any(|(n, v)| n == "x-backend" && v == "1") => {}
+        other => return json!({"violates": true, "input": "AccessDenied with two www-authenticate values and x-backend: 1 attached by the backend", "expected": "status 403, both challenges in order, x-backend kept", "observed": format!("{other:?}"), "replay_args": ["error-table"]}),
+    }
     // custom code: no table status -> 500, own text
     let e = s3s::S3Error::new(s3s::S3ErrorCode::from_bytes(b"MyCustomCode").unwrap());
     match render(e) {
         Ok((500, _, body)) if body.contains("<Code>MyCustomCode</Code>") => {}
         other => return json!({"violates": true, "input": "custom code MyCustomCode", "expected": "status 500, <Code>MyCustomCode</Code>", "observed": format!("{other:?}"), "replay_args": ["error-table"]}),
     }
-    json!({"violates": false, "evaluated": n + 2})
+    json!({"violates": false, "evaluated": n + 3})
 }
